@@ -8,7 +8,9 @@ import tempfile
 
 import numpy as np
 
-from bounded.harness import StandIn
+from bounded.harness import StandIn, check_contract
+from contracts import metrics as CM
+from soundevent.evaluation import metrics as lib_metrics
 from soundevent import data, io
 from soundevent.data.compat import term_from_key
 from soundevent.evaluation import (clip_classification, clip_multilabel_classification, sound_event_classification,
@@ -241,6 +243,12 @@ def main():
                 i = idx[c.predictions.clip.uuid]
                 check_values(s, "clip_classification", "clip", c.metrics, {"True Class Probability": r_true_class_probability(truth[i], S[i])}, key)
         run_task(s, "clip_classification", clip_classification, preds, anns, g.vocab, truth, S, key, tmp, per_item_cc)
+        # the wrappers' contracts (the text that is proved symbolically) evaluated natively on real numpy / scikit-learn
+        for cname, fn in (("Accuracy", lib_metrics.accuracy), ("BalancedAccuracy", lib_metrics.balanced_accuracy), ("Top3Accuracy", lib_metrics.top_3_accuracy)):
+            ok, obs, exp = check_contract(getattr(CM, cname), fn, dict(y_true=truth, y_score=S))
+            s.case(None, ("contract", cname, k))
+            if not ok:
+                s.fail(f"wrapper_contract:{cname}", f"{cname} {key}: {obs} violates {exp}")
 
         # ---------------- clip_multilabel_classification
         Y, rows, preds, anns = [], [], [], []
